@@ -52,6 +52,34 @@ type HistStep struct {
 
 var histKeys = map[int]string{1: "k1", 3: "k3", 4: "k4"}
 
+// what the filter's key material is at an event (the model is told the key id; the classifier tries the salt / info)
+type hstate struct {
+	keyName    string
+	keyID      int
+	salt, info []byte
+}
+
+// a rotation payload of kind all / salt / info / wrapper / empty: only the named components are non-nil
+func rotPayload(kind string, n int) (*Rot, int) {
+	r := &Rot{}
+	w := 0
+	if kind == "all" || kind == "wrapper" {
+		w = []int{3, 4}[n%2]
+		r.W = newAead(histKeys[w])
+	}
+	if kind == "all" || kind == "salt" {
+		r.Salt = []byte(fmt.Sprintf("rsalt-%d", n))
+	}
+	if kind == "all" || kind == "info" {
+		r.Info = []byte(fmt.Sprintf("rinfo-%d", n))
+	}
+	return r, w
+}
+
+func allNone(c Cfg) bool {
+	return (c.Ov[0] == "" || c.Ov[0] == "none") && c.Ov[1] == "none" && c.Ov[2] == "none"
+}
+
 func keyBytes(name string) []byte { h := sha256.Sum256([]byte("verif-" + name)); return h[:] }
 
 func newAead(name string) *aead.Wrapper {
@@ -249,18 +277,31 @@ var fixedTime = time.Unix(1700000000, 0).UTC()
 // a history: the events before c.Step run on the same filter first; the case proper is event c.Step
 func execCase(c Case) (res result) {
 	if len(c.Hist) == 0 {
-		return execOn(mkFilter(c.Cfg), "k1", 1, c)
+		return execOn(mkFilter(c.Cfg), &hstate{"k1", 1, filterSalt, filterInfo}, c, 0)
 	}
 	f := &encrypt.Filter{HmacSalt: filterSalt, HmacInfo: filterInfo, Wrapper: newAead("k1")}
-	keyID := 1
+	hs := &hstate{"k1", 1, filterSalt, filterInfo}
 	for i, h := range c.Hist {
 		setOverrides(f, h.Cfg)
 		if name, ok := histKeys[h.Rot]; ok {
 			f.Rotate(encrypt.WithWrapper(newAead(name)))
-			keyID = h.Rot
+			hs.keyName, hs.keyID = name, h.Rot
 		}
 		step := Case{ID: c.ID, Gen: c.Gen, Cfg: h.Cfg, PK: h.PK, V: h.V}
-		r := execOn(f, histKeys[keyID], keyID, step)
+		r := execOn(f, hs, step, i)
+		if h.PK == "rotate" && !allNone(h.Cfg) && h.V != nil {
+			// what the model says a consumed rotation payload has done to the filter
+			rp, w := rotPayload(h.V.K, i)
+			if w != 0 {
+				hs.keyName, hs.keyID = histKeys[w], w
+			}
+			if rp.Salt != nil {
+				hs.salt = rp.Salt
+			}
+			if rp.Info != nil {
+				hs.info = rp.Info
+			}
+		}
 		if i == c.Step {
 			return r
 		}
@@ -268,7 +309,8 @@ func execCase(c Case) (res result) {
 	return res
 }
 
-func execOn(f *encrypt.Filter, keyName string, keyID int, c Case) (res result) {
+func execOn(f *encrypt.Filter, hs *hstate, c Case, n int) (res result) {
+	keyName, keyID := hs.keyName, hs.keyID
 	ctx := context.Background()
 	cl := &classifier{canaries: map[string]int{}}
 	var pv interface{}
@@ -276,7 +318,11 @@ func execOn(f *encrypt.Filter, keyName string, keyID int, c Case) (res result) {
 	switch c.PK {
 	case "nil":
 	case "rotate":
-		pv = &Rot{W: newAead("k2"), Salt: []byte("rs"), Info: []byte("ri")}
+		kind := "all"
+		if c.V != nil {
+			kind = c.V.K
+		}
+		pv, _ = rotPayload(kind, n)
 	default:
 		collectCanaries(c.V, cl.canaries)
 		collectInts(c.V, &cl.extra)
@@ -288,14 +334,14 @@ func execOn(f *encrypt.Filter, keyName string, keyID int, c Case) (res result) {
 			cl.keys = append(cl.keys, keyCand{id, keyBytes(name)})
 		}
 	}
-	cl.si = []saltInfo{{filterSalt, filterInfo}}
+	cl.si = []saltInfo{{hs.salt, hs.info}}
 	if i, ok := pv.(encrypt.EventWrapperInfo); ok {
 		id := 0
 		fmt.Sscanf(i.EventId(), "ev%d", &id)
 		ewi = "(Some " + hc.N(id) + ")"
 		cl.keys = append(cl.keys, keyCand{2, deriveEventKey(keyBytes(keyName), i.EventId())})
-		for _, s := range [][]byte{filterSalt, i.HmacSalt()} {
-			for _, n := range [][]byte{filterInfo, i.HmacInfo()} {
+		for _, s := range [][]byte{hs.salt, i.HmacSalt()} {
+			for _, n := range [][]byte{hs.info, i.HmacInfo()} {
 				cl.si = append(cl.si, saltInfo{s, n})
 			}
 		}
@@ -466,6 +512,10 @@ func genHistories(e *emitter, r *hc.Rand, n int) {
 			if g.r.Chance(1, 4) {
 				st.Rot = []int{1, 3, 4}[g.r.Intn(3)]
 			}
+			if i > 0 && g.r.Chance(1, 5) {
+				// a rotation payload carrying only some of wrapper / salt / info: consumed, and the later events show what it installed
+				st = HistStep{Cfg: c, PK: "rotate", V: &V{K: []string{"all", "salt", "info", "wrapper", "empty"}[g.r.Intn(5)]}}
+			}
 			h = append(h, st)
 		}
 		e.emitHistory("history", h)
@@ -539,7 +589,9 @@ func genSpecial(e *emitter) {
 			return &V{K: "struct", Fields: []Field{{Name: "F1", Tag: sp("secret"), V: &V{K: "str", C: g.can()}}, {Name: "F2", Tag: sp("sensitive"), V: &V{K: "str", C: g.can()}}, {Name: "F3", V: &V{K: "int", I: 3}}}}
 		}
 		e.emit(Case{Gen: "special", Cfg: cf, PK: "nil"})
-		e.emit(Case{Gen: "special", Cfg: cf, PK: "rotate"})
+		for _, k := range []string{"all", "salt", "info", "wrapper", "empty"} {
+			e.emit(Case{Gen: "special", Cfg: cf, PK: "rotate", V: &V{K: k}})
+		}
 		e.emit(Case{Gen: "special", Cfg: cf, PK: "val", V: &V{K: "nilptr", Elem: st()}})
 		e.emit(Case{Gen: "special", Cfg: cf, PK: "val", V: &V{K: "str", C: 0}})
 		e.emit(Case{Gen: "special", Cfg: cf, PK: "val", V: &V{K: "str", C: g.can()}})
